@@ -200,3 +200,52 @@ Definition run_1004 (input impl : sx) : sx :=
     end
   | _ => v_malformed
   end.
+
+(* kind 1005: a HISTORY of walks on one filterFS value (harness/c10.go run1005): sequential
+   re-walks and walks started from inside the callback of a running walk.
+   input = (view include-raw exclude-raw maptable history), history = ((n0 n1 ...) ...);
+   impl = (#ffff) | (#0 inc exc ptable (calls ...)), one calls list per walk started, in start order.
+   Model: every walk reports filter_walk; a walk with nest positions n0 :: rest starts a nested walk
+   (with positions rest) iff it makes more than n0 calls.
+   Specification: EVERY walk of the history equals the reference — the naive reference when no path
+   is in the late-shadow domain and the L/* literals are regex-safe (C10's two known findings are
+   judged by kind 1001), the first walk of the history (a walk of the fresh value) otherwise. *)
+Fixpoint walks_started (m : nat) (nest : list N) : nat :=
+  match nest with
+  | [] => 1
+  | n :: r => if Nat.ltb (N.to_nat n) m then S (walks_started m r) else 1
+  end.
+
+Definition run_1005 (input impl : sx) : sx :=
+  match input with
+  | SL [v; inc; exc; mt; SL hist] =>
+    match dec_view v, dec_raws inc, dec_raws exc, sx_list dec_mentry mt, omap (sx_list sx_N) hist with
+    | Some view, Some incr_, Some excr, Some mtab, Some h =>
+      match impl with
+      | SL [SN 65535] =>
+        match mk_cfg incr_ excr with None => v_ok | Some _ => v_malformed end
+      | SL [SN 0; iinc; iexc; pt; SL walks] =>
+        match sx_list dec_pentry pt, mk_cfg incr_ excr with
+        | Some tbl, Some c =>
+          let pm := table_pmatch tbl in
+          let mf := table_map mtab in
+          let m := filter_walk pm mf c view in
+          let total := fold_left (fun acc nest => (acc + walks_started (length m) nest)%nat) h 0%nat in
+          let model := SL [SN 0; enc_side (c_inc c); enc_side (c_exc c); SL (repeat (enc_stats m) total)] in
+          let impl' := SL [SN 0; iinc; iexc; SL walks] in
+          let o_naive := enc_stats (if is_nil mtab && wf_tree view
+                                    then flat_reference (keep_naive pm c) view
+                                    else reference (keep_naive pm c) mf view) in
+          let dom := forallb (fun e => nls_path pm c (st_path (fst e))) (walk_root view) && cfg_star_safe c in
+          let ref := if dom then o_naive else match walks with w :: _ => w | [] => o_naive end in
+          let holds := forallb (sx_eqb ref) walks && Nat.eqb (length walks) total in
+          verdict model impl' holds (SL [of_bool dom; ref])
+        | Some _, None => v_diff (SL [SN 65535])
+        | _, _ => v_malformed
+        end
+      | _ => v_malformed
+      end
+    | _, _, _, _, _ => v_malformed
+    end
+  | _ => v_malformed
+  end.
